@@ -34,6 +34,7 @@ def opOf (j : Json) : P Op := do
   | "addFrom" => pure (.addFrom (← getList laneletOf j "ls"))
   | "copy" => let k ← getNat j "shift"; pure (.copy (fun a => a + k))
   | "scRemove" => pure (.scRemove (← getList asInt j "ids"))
+  | "move" => let k ← getNat j "shift"; pure (.move (← ptOf (← field j "t")) (fun a => a + k))
   | o => throw s!"unknown network op {o}"
 
 def boolsJ (bs : List Bool) : Json := Json.arr (bs.map Json.bool).toArray
